@@ -1,9 +1,26 @@
 package dissect
 
-import "unicode"
+// lowerASCII folds a single byte. Folding is deliberately byte-wise (ASCII only), so that the
+// pattern and the line are always folded by the same unit: bytes of multi-byte UTF-8 sequences
+// are left alone on both sides.
+func lowerASCII(b byte) byte {
+	if b >= 'A' && b <= 'Z' {
+		return b + ('a' - 'A')
+	}
+	return b
+}
+
+// lowerASCIIString folds a string the way indexIgnoreCase folds the text it searches
+func lowerASCIIString(s string) string {
+	buf := []byte(s)
+	for i, b := range buf {
+		buf[i] = lowerASCII(b)
+	}
+	return string(buf)
+}
 
 // Finds case-insensitive index of second string
-// ASSUMES second string is already lowered (optimization)
+// ASSUMES second string is already lowered with lowerASCIIString (optimization)
 func indexIgnoreCase(s, loweredSubstr string) int {
 	n := len(loweredSubstr)
 	switch {
@@ -13,7 +30,7 @@ func indexIgnoreCase(s, loweredSubstr string) int {
 		return -1
 	case len(s) == n:
 		for i := 0; i < n; i++ {
-			if unicode.ToLower(rune(s[i])) != rune(loweredSubstr[i]) {
+			if lowerASCII(s[i]) != loweredSubstr[i] {
 				return -1
 			}
 		}
@@ -22,7 +39,7 @@ func indexIgnoreCase(s, loweredSubstr string) int {
 		for i := 0; i <= len(s)-n; i++ {
 			match := true
 			for j := 0; j < n; j++ {
-				if unicode.ToLower(rune(s[i+j])) != rune(loweredSubstr[j]) {
+				if lowerASCII(s[i+j]) != loweredSubstr[j] {
 					match = false
 					break
 				}
